@@ -61,9 +61,17 @@ def adapted_contracts(repo: str, contracts: dict) -> tuple:
         if trees[rel] is None:
             continue
         b, shp = alpha.describe(trees[rel], qual)
-        if b is None or shp != b0["shape"] or b == b0.get("binders"):
+        if b is None or b == b0.get("binders"):
             continue
-        m = alpha.renaming(b0.get("binders"), b)
+        if shp == b0["shape"]:
+            m = alpha.renaming(b0.get("binders"), b)          # same statements, other names: every binder follows
+        else:
+            # the body changed as well: only the parameters (matched by position) can be followed; locals named in loop
+            # invariants stay as written
+            fn = alpha.find(trees[rel], qual)
+            new_p = alpha.param_names(fn) if fn is not None else None
+            old_p = b0.get("params")
+            m = alpha.renaming(old_p, new_p) if old_p and new_p and len(old_p) == len(new_p) else {}
         if m:
             out[name] = alpha.adapt(c, m)
             applied[name] = m
